@@ -49,6 +49,9 @@ type natsMsg struct {
 	// the request had not been completed when the listener took this message
 	// (after the deadline that means: it raced the timeout)
 	BeforeDone bool
+	// the inbox was no longer subscribed when the service answered (HandledAt is
+	// then the time of the attempt)
+	Undelivered bool
 }
 
 type natsDone struct {
@@ -84,6 +87,19 @@ type natsWorld struct {
 	closedEr string
 	dead     bool
 	cur      *natsQueued // the message the listener is about to look up (lock yields)
+	// per sid: messages delivered, and the maximum asked for with UNSUB <sid> <max>
+	delivered map[string]int
+	maxMsgs   map[string]int
+}
+
+// noteDelivered counts a message sent to sid and applies its maximum.
+func (w *natsWorld) noteDelivered(sid string) {
+	w.mu.Lock()
+	defer w.mu.Unlock()
+	w.delivered[sid]++
+	if m := w.maxMsgs[sid]; m > 0 && w.delivered[sid] >= m {
+		delete(w.subsBySI, sid)
+	}
 }
 
 type natsPub struct{ subj, reply, payload string }
@@ -111,7 +127,7 @@ func (s *Sim) runNATS() {
 		cfg.P.Faults["lockyield"] = true
 		cfg.P.MaxSteps += 150
 	}
-	w := &natsWorld{s: s, subsBySI: map[string]string{}}
+	w := &natsWorld{s: s, subsBySI: map[string]string{}, delivered: map[string]int{}, maxMsgs: map[string]int{}}
 	s.nats = w
 	cliEnd, srvEnd := net.Pipe()
 	w.srv = srvEnd
@@ -193,8 +209,18 @@ func (w *natsWorld) serve() {
 			w.subsBySI[f[len(f)-1]] = f[1]
 			w.mu.Unlock()
 		case "UNSUB":
+			// UNSUB <sid> [max_msgs]: with a maximum the subscription goes once that
+			// many messages have been delivered to it
 			w.mu.Lock()
-			delete(w.subsBySI, f[1])
+			max := 0
+			if len(f) > 2 {
+				max, _ = strconv.Atoi(f[2])
+			}
+			if max > 0 && w.delivered[f[1]] < max {
+				w.maxMsgs[f[1]] = max
+			} else {
+				delete(w.subsBySI, f[1])
+			}
 			w.mu.Unlock()
 		case "PUB", "HPUB":
 			// PUB <subject> [reply] <#bytes> ; HPUB <subject> [reply] <#hdr> <#total>
@@ -365,8 +391,11 @@ func (s *Sim) natsStep(d Decision) {
 		}
 		if sid == "" {
 			// the client has dropped the inbox: a real server delivers nothing
+			m.Undelivered, m.HandledAt, m.BeforeDone = true, s.now(), len(r.Done) == 0
+			r.Msgs = append(r.Msgs, m)
 			break
 		}
+		w.noteDelivered(sid)
 		r.Msgs = append(r.Msgs, m)
 		w.queue = append(w.queue, &natsQueued{req: r, msg: m})
 		if d.A == "noresp" {
@@ -552,6 +581,12 @@ func (s *Sim) natsFinish() {
 		dl := r.SentAt + natsTimeout
 		raced := false
 		for _, m := range r.Msgs {
+			if m.Undelivered {
+				if m.BeforeDone && m.HandledAt < dl {
+					s.violateNATS("b", "inbox-dropped-before-completion", "%s: the service answered at %v, before the deadline %v and with the request not completed, but the adapter had already dropped the request's inbox (messages: %s)", name, m.HandledAt, dl, r.msgList())
+				}
+				continue
+			}
 			if m.Handled && m.HandledAt >= dl && m.BeforeDone {
 				// the listener looked the request up after the deadline, before the
 				// timeout had: either of them completes it
